@@ -9,6 +9,7 @@ import (
 	"verif/vrt"
 )
 
+//go:norace
 func p(op string, obj any) { vrt.Point(op, nil, obj) }
 
 func AddInt32(addr *int32, delta int32) int32 {
